@@ -19,6 +19,7 @@ from e3fp.conformer.util import mol_to_sdf  # noqa: E402
 NAMES = [None, "mol", "CHEMBL12345", "a-b", "x_y", "m.1", "ZINC000012", "cpd 7", "é", "a_b_c", "n-", "v1.2-beta"]
 SUFFIX_NAMES = ["abc_7", "abc-2", "abc-2_7", "abc-02", "a_7_8", "_7", "-3", "a-1-2_3", "7", "a_", "x-1_"]
 EXTS = [".fp.pkl", ".fp.gz", ".fp.bz2"]
+FULL_ENTRIES = ("dict", "dict_all_iters")
 
 
 def sub_mol(ref, nconf, name):
@@ -56,13 +57,15 @@ def fp_params(o, first, all_iters=None):
 
 class C14(vlib.Check):
     id = "C14"
-    props_modules = ["E3fpVerif.Props.C14"]
+    props_modules = ["E3fpVerif.Props.C14", "E3fpVerif.Props.C14Entry"]
     gen_items = ["fprinter_consts"]
     rule = ("molecules with 1..12 conformers (from the shipped SDFs and embedded SMILES), named / unnamed / with names from a "
             "suffix-free list (and, for the naming model only, names with -digits/_digits suffixes); first in {-1,1,2,n-1,n,n+5}; "
             "level in {0,2,5,-1,None}; bits; all_iters; the entry points fprints_from_mol, fprints_dict_from_mol, "
             "fprints_from_sdf (through mol_to_sdf), fprints_from_smiles (seeded generation, repeated calls with different "
-            "`first`), saved files reloaded for the three extensions. Non-trivial: >= 2 conformers processed; distinct by case.")
+            "`first`), saved files reloaded for the three extensions; for the direct calls of fprints_dict_from_mol the whole "
+            "returned dictionary (keys, order, names, fingerprints) is compared with the model of the conformer loop on one "
+            "reused fingerprinter object (driver op fpo.entry). Non-trivial: >= 2 conformers processed; distinct by case.")
     trusted_base = ["RDKit SDF I/O, pickle/compression (compared on every run)"]
 
     def tmp(self):
@@ -88,6 +91,15 @@ class C14(vlib.Check):
             if o["level"] in (-1, None):
                 o["remove_duplicate_substructs"] = True
             entry = rng.choice(["from_mol", "from_mol", "dict", "dict_all_iters", "from_sdf", "save", "from_mol_all_iters", "select"])
+            if rng.random() < 0.4:
+                # conformers of one molecule that converge at different iterations (scaled copies of a conformer), and a
+                # requested level in the range where some have converged and others have not: whatever the one reused
+                # fingerprinter object keeps from an earlier conformer would show in a later one
+                ref = dict(ref, scales=[1.0, 0.55, 1.6, 2.4, 0.8, 1.3])
+                nconf = rng.choice([3, 5, 6])
+                first = rng.choice([-1, nconf])
+                o["level"] = rng.choice([1, 2, 3, 4, 5, 6, 7])
+                self.count("scaled-conformers")
             name = rng.choice(NAMES)
             if entry in ("from_sdf", "save") and name is None:
                 name = "named"
@@ -163,7 +175,11 @@ class C14(vlib.Check):
             return {"ok": {"n": len(out["list"]), "names": [n for n, _ in out["list"]]}}
         keys = sorted(int(k) for k in out["dict"])
         first = out["dict"][str(keys[-1])] if keys else []
-        return {"ok": {"n": len(first), "names": [n for n, _ in first], "keys": keys}}
+        res = {"n": len(first), "names": [n for n, _ in first], "keys": keys}
+        if case["entry"] in FULL_ENTRIES:
+            # the whole result goes to the comparison with the model of the conformer loop (`fpo.entry`)
+            res["dict"] = [[k, [[d, n] for n, d in out["dict"][str(k)]]] for k in keys]
+        return {"ok": res}
 
     def model_ops(self, case):
         if case["t"] == "naming":
@@ -172,8 +188,26 @@ class C14(vlib.Check):
             return [{"op": "fpr.hash", "words": []}]
         lvl = case["opts"]["level"]
         lvl = -1 if lvl is None else lvl
-        return [{"op": "pipe.plan", "name": case["name"], "nconf": case["nconf"], "first": case["first"], "level": lvl,
-                 "all_iters": case["entry"] == "dict_all_iters" or bool(case.get("all_iters")), "select": lvl}]
+        ops = [{"op": "pipe.plan", "name": case["name"], "nconf": case["nconf"], "first": case["first"], "level": lvl,
+                "all_iters": case["entry"] == "dict_all_iters" or bool(case.get("all_iters")), "select": lvl}]
+        if case["entry"] in FULL_ENTRIES:
+            import numpy as np
+            mol = sub_mol(case["ref"], case["nconf"], case["name"])
+            o = dict(case["opts"], level=lvl)
+            mult = o.pop("radius_multiplier")
+            for k in (0, 1, 2):      # the conformers as they are, and two 3e-14 A perturbations (round-off band detection)
+                confs = []
+                for ci in range(mol.GetNumConformers()):
+                    cs = MG.coords_of(mol.GetConformer(ci))
+                    if k:
+                        r = np.random.RandomState(k)
+                        X = np.array([[p.x, p.y, p.z] for p in (mol.GetConformer(ci).GetAtomPosition(i) for i in range(mol.GetNumAtoms()))])
+                        X = X + r.uniform(-1, 1, X.shape) * 3e-14
+                        cs = [[i, MG.fbits(X[i, 0]), MG.fbits(X[i, 1]), MG.fbits(X[i, 2])] for i in range(len(X))]
+                    confs.append(cs)
+                ops.append({"op": "fpo.entry", "opts": o, "mol": MG.mol_facts(mol), "confs": confs, "mult": MG.fbits(mult),
+                            "name": case["name"], "first": case["first"], "all_iters": case["entry"] == "dict_all_iters"})
+        return ops
 
     def model_answer(self, case, answers):
         a = answers[0]
@@ -186,11 +220,25 @@ class C14(vlib.Check):
         o = a["ok"]
         if case["entry"] in ("from_mol", "from_sdf", "from_mol_all_iters", "select"):
             return {"ok": {"n": o["n"], "names": o["names"]}}
-        return {"ok": {"n": o["n"], "names": o["names"], "keys": sorted(o["keys"])}}
+        res = {"n": o["n"], "names": o["names"], "keys": sorted(o["keys"])}
+        if case["entry"] in FULL_ENTRIES:
+            ents = answers[1:4]
+            if any(vlib.canon(e) != vlib.canon(ents[0]) for e in ents[1:]):
+                res["dict"] = "margin"
+            elif "ok" in ents[0]:
+                res["dict"] = sorted(ents[0]["ok"] or [], key=lambda kv: kv[0])
+            else:
+                res["dict"] = ents[0]
+        return {"ok": res}
 
     def compare(self, case, a_impl, a_model):
         if case["t"] == "entry" and not in_dom(sub_mol(case["ref"], 1, case["name"]), case["opts"], case["entry"]):
             return None        # no retained heavy atom: outside the quantifier
+        if case["t"] == "entry" and "ok" in a_model and isinstance(a_model["ok"], dict) and a_model["ok"].get("dict") == "margin":
+            self.count("margin_discarded")
+            a_model = {"ok": {k: v for k, v in a_model["ok"].items() if k != "dict"}}
+            if "ok" in a_impl:
+                a_impl = {"ok": {k: v for k, v in a_impl["ok"].items() if k != "dict"}}
         return super().compare(case, a_impl, a_model)
 
     # ------------------------------------------------------------------ property
